@@ -152,7 +152,7 @@ func genRecord(r *rng) *grec {
 		add("Content-Type", ct)
 	}
 	if r.chance(1, 5) {
-		add(pick(r, []string{"X-Custom", "x-foo", "WARC-Identified-Payload-Type", "WARC-Page-ID"}), pick(r, []string{"v", "a b", "text/html", "a: b"}))
+		add(pick(r, []string{"X-Custom", "x-foo", "WARC-Identified-Payload-Type", "WARC-Page-ID"}), pick(r, []string{"v", "a b", "text/html", "a: b", "form feed at end\f", "nbsp\xc2\xa0", "\xe3\x80\x80", "\vvt"}))
 	}
 	if g.rtNum != 1 && r.chance(1, 4) {
 		add("WARC-Warcinfo-ID", "<urn:uuid:aaaaaaaa-0000-4000-8000-00000000000f>")
